@@ -213,6 +213,8 @@ class Reshape(Family):
                     ts = factorizations(k, 3)
                     t = rng.choice(ts)
                     out.append({"rep": "sparse", "x": x, "shape": t, "old_modes": list(om)})
+            out.append({"rep": "sparse", "x": x, "shape": [s[0] * s[0]], "old_modes": [0, 0]})
+            out.append({"rep": "sparse", "x": x, "shape": [1], "old_modes": [N]})
         return out
 
     def evaluate(self, cases):
